@@ -34,7 +34,7 @@ fn drive_c02_c03(opts: &Opts) -> i32 {
         "same simulated runs as C02 (slice, readers under seeded read histories and buffer capacities, file/mmap, multi-line toggled), judged against an independent executable grep model (split at terminator, regex crate per line, textbook context windows, separators, numbering, offsets, stop-on-nonmatch) plus in-run sink invariants (offsets strictly increasing). distinct_nontrivial = distinct generated cases with delivered results whose buffer rolled under at least one history."
     };
     let mut rep = Report::new(opts, "exploration", rule);
-    let cases = opts.cases(50_000, 3_000_000);
+    let cases = opts.cases(120_000, 3_000_000);
     let histories = if opts.thorough() { 20 } else { 10 };
     let label = "c02c03";
     let seed = opts.seed;
@@ -194,15 +194,15 @@ fn main() {
     }
     let code = match opts.property.as_str() {
         "C02" | "C03" => drive_c02_c03(&opts),
-        "C16" => drive_simple(&opts, "fault_enumeration", "c16", opts.cases(60_000, 3_000_000),
+        "C16" => drive_simple(&opts, "fault_enumeration", "c16", opts.cases(200_000, 3_000_000),
             "per generated case (<=24 lines; LF/CRLF; line and multi-line patterns; binary detection none/quit/convert with a planted NUL) the uninterrupted event stream E is recorded for the slice strategy and for a reader under a seeded history and buffer capacity; then EVERY crash point of that case is executed: each event index k (begin, match, context, separator, binary notice) x {stop, error} and each read index j x {error, Interrupted}; plus the Standard/JSON/Summary printers with max_matches=N for every N in 0..#matches+1 (slice and reader) and a writer failing after k bytes. One evaluation = one search run with one injected crash point. distinct_nontrivial = distinct generated cases whose uninterrupted stream has more than two events.",
             |sub, acc| c16::run_case(sub, acc)),
-        "C14" => drive_scratch(&opts, "exploration", "c14", opts.cases(25_000, 1_500_000),
+        "C14" => drive_scratch(&opts, "exploration", "c14", opts.cases(40_000, 1_500_000),
             "library leg: one evaluation = one search of generated text with 1-3 planted NUL bytes (first byte, last byte, inside or just after a matching line, around the 64 KiB sniff window, late, anywhere; 1 in 25 inputs > 70 KB) with binary detection none/quit/convert, as a slice and through 6 SimReader histories with randomised buffer capacity, in line and multi-line mode, recorded by SimSink and additionally printed by the Standard, Summary(count) and JSON printers into SimWriter.",
             |sub, scratch, acc| c14::run_case(sub, scratch, acc)),
         "C17" => {
             let histories = if opts.thorough() { 16 } else { 8 };
-            drive_scratch(&opts, "exploration", "c17", opts.cases(20_000, 1_500_000),
+            drive_scratch(&opts, "exploration", "c17", opts.cases(50_000, 1_500_000),
                 "one evaluation = one search of generated text (ASCII, BMP, astral characters, optionally starting with U+FEFF; 0-40 lines, 1 in 16 cases 300-1800 lines so that the 8 KiB transcoding buffer and the roll buffer are crossed) encoded as UTF-16LE/BE with BOM (optionally with lone surrogates, an odd trailing byte, a conflicting explicit label), UTF-8 with BOM (optionally with a label), UTF-16 by label without BOM, UTF-8 by label with a malformed byte, windows-1252 / shift_jis / euc-kr by label, or raw with encoding none; searched as a slice, through SimReader histories (one always splitting code units: fixed 1/3/5/7-byte reads; EINTR incl. during BOM sniffing) with randomised buffer capacity, and through a tmpfs file with/without mmap. Oracle: event stream identical to search_slice over the one-shot encoding_rs decode of the input (mark overrides label, mark removed, malformed -> U+FFFD; encoding none -> raw bytes). distinct_nontrivial = distinct cases with delivered results whose reader needed more than two reads.",
                 move |sub, scratch, acc| c17::run_case(sub, histories, scratch, acc))
         }
